@@ -72,6 +72,35 @@ def prove(assumptions, goal, timeout_ms=DEFAULT_TIMEOUT_MS, seed=0, use_cvc5=Tru
     return Verdict("unknown", time.time() - t0, "z3+nlsat+cvc5", n_instances=len(inst), reason=reason)
 
 
+def cvc5_verdict(assumptions, goal, timeout_ms):
+    """'unsat' | 'sat' | None (unknown / timeout / error) from cvc5 on the same query."""
+    fs = [f for f in assumptions if not z3.is_true(f)] + [z3.Not(goal)]
+    fs = propagate_constants(fs)
+    inst = axioms.instantiate(fs)
+    s = z3.Solver()
+    s.add(*fs)
+    s.add(*inst)
+    try:
+        import cvc5
+        slv = cvc5.Solver()
+        slv.setOption("tlimit-per", str(timeout_ms))
+        slv.setLogic("ALL")
+        ip = cvc5.InputParser(slv)
+        ip.setStringInput(cvc5.InputLanguage.SMT_LIB_2_6, s.to_smt2(), "q")
+        sm = ip.getSymbolManager()
+        res = None
+        while True:
+            cmd = ip.nextCommand()
+            if cmd.isNull():
+                break
+            out = str(cmd.invoke(slv, sm)).strip()
+            if out in ("unsat", "sat", "unknown"):
+                res = out
+        return res if res in ("unsat", "sat") else None
+    except Exception:
+        return None
+
+
 def propagate_constants(fs, rounds=3):
     """Substitute `c == numeral` facts (top-level conjuncts) everywhere, so that e.g. a
     Constant child whose value is known to be -1 shows up as the numeral in exp/ln/ipow
